@@ -86,6 +86,101 @@ def many_interleaved(v, tier, ev, mlar):
     log(f"[C17] {n} interleaved files (two runs each, more than the pool of 1000 descriptors): extract, list, to-tar compared")
 
 
+def key_path_kinds(v, tier, ev, mlar):
+    """SURFACE of the keys: the same key given as a regular file, through a symbolic link, through a named pipe and on
+    standard input (`/dev/stdin`: `pass show key | mlar list -k /dev/stdin ...`, process substitution): every command
+    must do what it does with the regular file."""
+    import threading
+    wd = workdir("c17-keykinds")
+    data = {"a.txt": b"alpha\n" * 100, "b.bin": bytes(range(256)) * 40}
+    for rel, d in data.items():
+        open(os.path.join(wd, rel), "wb").write(d)
+
+    def run(args, inp=None):
+        p = subprocess.run([mlar] + args, cwd=wd, stdout=subprocess.PIPE, stderr=subprocess.PIPE, timeout=120, input=inp, preexec_fn=limit_as)
+        return p.returncode, p.stdout, p.stderr.decode(errors="replace")[-300:]
+    if run(["keygen", "k"])[0] or run(["keygen", "other"])[0]:
+        raise ToolError("mlar keygen failed")
+    priv, pub = open(os.path.join(wd, "k"), "rb").read(), open(os.path.join(wd, "k.pub"), "rb").read()
+    os.symlink("k", os.path.join(wd, "k.link"))
+    os.symlink("k.pub", os.path.join(wd, "k.pub.link"))
+
+    def with_key(kind, content, regular, build_args):
+        """run mlar with the key supplied as `kind`; build_args(path) gives the arguments"""
+        if kind == "file":
+            return run(build_args(regular))
+        if kind == "link":
+            return run(build_args(regular + ".link"))
+        if kind == "stdin":
+            return run(build_args("/dev/stdin"), inp=content)
+        fifo = os.path.join(wd, f"fifo{with_key.n}")
+        with_key.n += 1
+        os.mkfifo(fifo)
+
+        def feed():
+            try:
+                with open(fifo, "wb") as f:
+                    f.write(content)
+            except OSError:
+                pass
+        t = threading.Thread(target=feed, daemon=True)
+        t.start()
+        r = run(build_args(fifo))
+        if t.is_alive():
+            # the command never opened the pipe: release the feeder
+            try:
+                fd = os.open(fifo, os.O_RDONLY | os.O_NONBLOCK)
+                os.close(fd)
+            except OSError:
+                pass
+        t.join(5)
+        return r
+    with_key.n = 0
+    n = 0
+    ref_arch = os.path.join(wd, "ref.mla")
+    rc, so, se = run(["create", "-o", ref_arch, "-p", "k.pub", "a.txt", "b.bin"])
+    if rc:
+        raise ToolError(f"mlar create failed: {se}")
+    for kind in ("file", "link", "stdin", "fifo"):
+        # the public key, at creation; the archive must open with the private key and give the files back
+        arch = os.path.join(wd, f"pub-{kind}.mla")
+        rc, so, se = with_key(kind, pub, "k.pub", lambda p: ["create", "-o", arch, "-p", p, "a.txt", "b.bin"])
+        n += 1
+        ok = rc == 0 and all(run(["cat", "-i", arch, "-k", "k", rel])[1] == d for rel, d in data.items())
+        if not ok:
+            v.violation(dict(check="cli-keykind", kind="public-key-" + kind, cmd="create"), dict(rc=rc, stderr=se))
+        # the private key, for every reading command
+        for cmd, args, want in (("list", ["list", "-i", ref_arch], None), ("cat", ["cat", "-i", ref_arch, "b.bin"], data["b.bin"]),
+                                ("to-tar", ["to-tar", "-i", ref_arch, "-o", f"t-{kind}.tar"], None),
+                                ("convert", ["convert", "-i", ref_arch, "-o", f"c-{kind}.mla", "-l"], None),
+                                ("repair", ["repair", "-i", ref_arch, "-o", f"r-{kind}.mla", "-l"], None)):
+            reg = run(args[:3] + ["-k", "k"] + args[3:]) if kind != "file" else None
+            rc, so, se = with_key(kind, priv, "k", lambda p: args[:3] + ["-k", p] + args[3:])
+            n += 1
+            good = rc == 0 and (want is None or so == want) and (reg is None or (reg[0] == 0 and (cmd != "list" or sorted(reg[1].split()) == sorted(so.split()))))
+            if not good:
+                v.violation(dict(check="cli-keykind", kind="private-key-" + kind, cmd=cmd), dict(rc=rc, stderr=se, stdout=so[:100].decode(errors="replace")))
+        # a WRONG key through the same channel still fails
+        wrong = open(os.path.join(wd, "other"), "rb").read()
+        rc, so, se = with_key(kind if kind != "link" else "file", wrong, "other", lambda p: ["cat", "-i", ref_arch, "-k", p, "b.bin"])
+        n += 1
+        if rc == 0 or so:
+            v.violation(dict(check="cli-keykind", kind="wrong-key-accepted-" + kind, cmd="cat"), dict(rc=rc, stdout=so[:60].decode(errors="replace")))
+        # keyderive with the parent key through the channel: the same child as from the regular file
+        for f in ("child", "child.pub"):
+            if os.path.exists(os.path.join(wd, f)):
+                os.remove(os.path.join(wd, f))
+        rc, so, se = with_key(kind, priv, "k", lambda p: ["keyderive", p, "child", "-p", "App X"])
+        n += 1
+        child = open(os.path.join(wd, "child"), "rb").read() if rc == 0 and os.path.exists(os.path.join(wd, "child")) else None
+        if kind == "file":
+            ref_child = child
+        if child is None or child != ref_child:
+            v.violation(dict(check="cli-keykind", kind="keyderive-parent-" + kind, cmd="keyderive"), dict(rc=rc, stderr=se))
+    ev["key_path_kinds"] = dict(runs=n, kinds=["file", "link", "stdin", "fifo"])
+    log(f"[C17] keys as file / link / stdin / named pipe: {n} commands")
+
+
 def directory_inputs(v, tier, ev, mlar):
     """`create` given DIRECTORIES (walked recursively, empty ones ignored), with the same directory reachable under two
     names (a symbolic link, `dir` and `./dir`) and a link to a file: the archive lists every path of the walk and gives back
@@ -422,6 +517,7 @@ def main(tier):
     log(f"[C17] Cli: {len(behs)} pipeline/observer/key behaviours, {len(built)} archives built, {nobs} observations made with the real mlar")
     many_interleaved(v, tier, ev, mlar)
     directory_inputs(v, tier, ev, mlar)
+    key_path_kinds(v, tier, ev, mlar)
     cov = dict(interleaved_files_extracted=ev.get("many_files", 0), directory_input_archives=ev.get("directory_inputs", 0), states=r.distinct, transitions=r.generated, traces_validated_against_impl=nobs, samples=samples or ["none"],
                behaviours_from_model=len(behs), archives_built=len(built), tlc_runs=ev["tlc"], exhaustive=True,
                rule="pipelines create (-> convert | repair)^{0..MaxSteps} over {none, compress, encrypt, both} x observers "
